@@ -27,6 +27,8 @@ fn run_w<const B: usize, const L: usize>(scn: &Obj) -> Value {
         "invmod" => {
             let (a, m) = (u("a"), u("m"));
             ev.rec("inv", || a.inv_mod(m));
+            // the public free function behind the method takes the same (not necessarily reduced) arguments
+            ev.rec("alg_inv", || ruint::algorithms::inv_mod(a, m));
         }
         "redc" => {
             let (a, b, m) = (u("a"), u("b"), u("m"));
@@ -39,6 +41,8 @@ fn run_w<const B: usize, const L: usize>(scn: &Obj) -> Value {
             ev.rec("gcd", || a.gcd(b));
             ev.rec("lcm", || a.lcm(b));
             ev.rec("ext", || a.gcd_extended(b));
+            ev.rec("alg_gcd", || ruint::algorithms::gcd(a, b));
+            ev.rec("alg_ext", || ruint::algorithms::gcd_extended(a, b));
         }
         "pow" => {
             let (a, e) = (u("a"), u("e"));
